@@ -119,6 +119,9 @@ func loadProgram(dir string, patterns []string, overlay map[string][]byte) (*Pro
 				}
 				for _, fc := range cf.Funcs {
 					key, err := P.resolveKey(p, fc.Key)
+					if fc.IsLemma {
+						key, err = p.PkgPath+"."+fc.Key, nil
+					}
 					if err != nil {
 						return nil, fmt.Errorf("%s:%d: %v", fc.File, fc.Line, err)
 					}
